@@ -150,6 +150,27 @@ def flat_leaves(spec, value):
     raise ValueError(k)
 
 
+def unflatten(spec, flat):
+    """inverse of flat_leaves: list of leaf ints (leaf_table order) -> value tree"""
+    it = iter(flat)
+
+    def build(s):
+        k = s["k"]
+        if k in LEAF_KINDS:
+            return next(it)
+        if k in ("carr", "sarr"):
+            return [build(s["e"]) for _ in range(s["n"])]
+        if k == "rec":
+            return [build(f) for _, f in rec_fields(s)]
+        if k in ("enum", "flag"):
+            return build(s["u"])
+        if k == "ser":
+            return build(s["e"])
+        raise ValueError(k)
+
+    return build(spec)
+
+
 def blame(spec, expected: int, got: int):
     """composite kinds on the path to the lowest differing bit ('' if equal / outside)"""
     diff = expected ^ got
@@ -264,4 +285,5 @@ def selfcheck():
     offs = [(o, w) for _, _, o, w in leaf_table(s)]
     assert offs == [(0, 1), (1, 3), (4, 2), (6, 1), (7, 2), (9, 1)]
     assert blame(s, 0, 1 << 6) == "rec/sarr/rec/bool"
+    assert unflatten(s, flat_leaves(s, v)) == v
     assert field_write(0b1111, 2, 1, 0) == 0b1001 and field_read(0b0110, 2, 1) == 3
